@@ -37,7 +37,11 @@ def _delete(x, path):
     del x[path[-1]]
 
 
-def reduce_record(record, still_fails, budget=250):
+PROTECT = {"key", "keys", "sender", "jwk", "token", "token2"}
+
+
+def reduce_record(record, still_fails, budget=250, protect=PROTECT):
+    """protect: dict member names below which nothing is touched (key material, stored tokens)."""
     state = {"n": 0}
 
     def ok(c):
@@ -59,6 +63,8 @@ def reduce_record(record, still_fails, budget=250):
             if state["n"] >= budget:
                 break
             if not path:
+                continue
+            if any(isinstance(p, str) and p in protect for p in path[:-1]) or (isinstance(path[-1], str) and path[-1] in protect):
                 continue
             try:
                 cur = _get(best, path)
